@@ -130,6 +130,31 @@ def verdictJson (f₁ f₂ : NStep) (fuel budget a b : Nat) : Json :=
     Json.mkObj [("verdict", .str (if left then "silent-left" else "silent-right")), ("path", jList Json.bool path)]
   | .budget => Json.mkObj [("verdict", .str "budget")]
 
+/-- reachability facts of one routine of a machine: can it fall off the end / get stuck / spin silently? -/
+def wfFacts (m : Machine) (r : Nat) : Json :=
+  let fuel := m.ops.size + 8
+  let rec go (n : Nat) (todo : List Nat) (seen : List Nat) (fall stuck silent : Bool) : Bool × Bool × Bool × List Nat :=
+    match n, todo with
+    | 0, _ => (fall, stuck, silent, seen)
+    | _, [] => (fall, stuck, silent, seen)
+    | n+1, s :: rest =>
+      if seen.contains s then go n rest seen fall stuck silent
+      else
+        let fall' := fall || s == m.fellOff
+        let stuck' := stuck || s == m.stuck
+        let silent' := silent || (settleN m.step fuel s).isNone
+        let succs := match m.step s with
+          | .silent t => [t]
+          | .emit _ t => [t]
+          | .test _ y no => [y, no]
+          | .halt _ => []
+        go n (succs ++ rest) (s :: seen) fall' stuck' silent'
+  let (f, st, si, seen) := go (4 * m.ops.size + 16) [m.entry r] [] false false false
+  let own := (List.range m.ops.size).filter fun i => match m.ops[i]? with | some o => o.rtn == r | none => false
+  let unreach := own.filter fun i => !seen.contains i
+  Json.mkObj [("r", jNat r), ("falls_off", .bool f), ("stuck", .bool st), ("silent_cycle", .bool si),
+    ("unreachable", jNat unreach.length), ("reached", jList jNat (seen.filter (· < m.ops.size)))]
+
 def handle (op : String) (j : Json) : R Json := do
   match op with
   | "beh.validate" =>
@@ -153,6 +178,10 @@ def handle (op : String) (j : Json) : R Json := do
     let res := (List.range n).map fun r =>
       (verdictJson m1.step m2.step fuel budget (m1.entry r) (m2.entry r)).setObjVal! "r" (jNat r)
     pure (Json.mkObj [("routines", .arr res.toArray)])
+  | "beh.wf" =>
+    let m ← machineOf (← fld j "ops")
+    let n ← asNat (← fld j "n")
+    pure (Json.mkObj [("routines", .arr ((List.range n).map (wfFacts m)).toArray)])
   | "beh.trace" =>
     let m ← machineOf (← fld j "ops")
     let r ← asNat (← fld j "r")
